@@ -38,73 +38,73 @@ abbrev FineCall (filt : Nat → List Nat) (p : Prog V E) : Prop := Fine filt (fu
 /-- One call on a document in a state satisfying the invariant returns the unguarded uncached answer
     and re-establishes the invariant. -/
 theorem call_spec {d : Doc V E} {filt : Nat → List Nat} {rank : Nat → Nat} (wf : WF d filt rank)
-    {N : Nat} (hN : ∀ r, rank r < N) (cfg : Cfg) (ht : cfg.trustErr = false) (fuel : Nat) (hf : N ≤ fuel)
+    {N : Nat} (hN : ∀ r, rank r < N) (hD : N ≤ maxNestedGets) (cfg : Cfg) (ht : cfg.trustErr = false) (fuel : Nat) (hf : N ≤ fuel)
     (st : St V E) (hi : Inv d filt (ans d rank) st) (p : Prog V E) (hp : FineCall filt p) :
     (call d cfg fuel st p).1 = canon (ans d rank) d p ∧ Inv d filt (ans d rank) (call d cfg fuel st p).2 := by
   unfold call
-  refine run_spec cfg wf.dec (getM_spec wf cfg ht fuel) (hp.mono fun r _ => ?_) [] st (by simp) hi
-  have := hN r; omega
+  exact run_spec cfg wf.dec ((getM_spec wf cfg ht fuel).mono hf) (hp.mono fun r _ => hN r) [] st (by simp)
+    (by simpa using hD) hi
 
 theorem runCalls_spec {d : Doc V E} {filt : Nat → List Nat} {rank : Nat → Nat} (wf : WF d filt rank)
-    {N : Nat} (hN : ∀ r, rank r < N) (cfg : Cfg) (ht : cfg.trustErr = false) (fuel : Nat) (hf : N ≤ fuel)
+    {N : Nat} (hN : ∀ r, rank r < N) (hD : N ≤ maxNestedGets) (cfg : Cfg) (ht : cfg.trustErr = false) (fuel : Nat) (hf : N ≤ fuel)
     (calls : List (Prog V E)) : ∀ (st : St V E), Inv d filt (ans d rank) st → (∀ p ∈ calls, FineCall filt p) →
     runCalls d cfg fuel st calls = calls.map (canon (ans d rank) d) := by
   induction calls with
   | nil => intro st _ _; rfl
   | cons p ps ih =>
     intro st hi hc
-    have h := call_spec wf hN cfg ht fuel hf st hi p (hc p (by simp))
+    have h := call_spec wf hN hD cfg ht fuel hf st hi p (hc p (by simp))
     simp only [runCalls, List.map_cons]
     rw [h.1, ih _ h.2 (fun q hq => hc q (by simp [hq]))]
 
 /-- **C12, reference semantics.** Whatever the cache configuration and however long the history, the
     answers are the plain recursive evaluation of the calls: no guard, no cache, no history. -/
 theorem outputs_spec_partial {d : Doc V E} {filt : Nat → List Nat} {rank : Nat → Nat} (wf : WF d filt rank)
-    {N : Nat} (hN : ∀ r, rank r < N) (cfg : Cfg) (ht : cfg.trustErr = false) (fuel : Nat) (hf : N ≤ fuel)
+    {N : Nat} (hN : ∀ r, rank r < N) (hD : N ≤ maxNestedGets) (cfg : Cfg) (ht : cfg.trustErr = false) (fuel : Nat) (hf : N ≤ fuel)
     (calls : List (Prog V E)) (hc : ∀ p ∈ calls, FineCall filt p) :
     outputs d cfg fuel calls = calls.map (canon (ans d rank) d) :=
-  runCalls_spec wf hN cfg ht fuel hf calls St.empty (Inv_empty _ _ _) hc
+  runCalls_spec wf hN hD cfg ht fuel hf calls St.empty (Inv_empty _ _ _) hc
 
 /-- **C12, first sentence.** A document opened with object and/or stream cache returns, call by call,
     what the same document opened without caches returns — for all four configurations (`cfg` is
     arbitrary), all call sequences, all well-founded documents. -/
 theorem cache_transparent_partial {d : Doc V E} {filt : Nat → List Nat} {rank : Nat → Nat} (wf : WF d filt rank)
-    {N : Nat} (hN : ∀ r, rank r < N) (cfg : Cfg) (ht : cfg.trustErr = false) (fuel : Nat) (hf : N ≤ fuel)
+    {N : Nat} (hN : ∀ r, rank r < N) (hD : N ≤ maxNestedGets) (cfg : Cfg) (ht : cfg.trustErr = false) (fuel : Nat) (hf : N ≤ fuel)
     (calls : List (Prog V E)) (hc : ∀ p ∈ calls, FineCall filt p) :
     outputs d cfg fuel calls = outputs d Cfg.none fuel calls := by
-  rw [outputs_spec_partial wf hN cfg ht fuel hf calls hc, outputs_spec_partial wf hN Cfg.none rfl fuel hf calls hc]
+  rw [outputs_spec_partial wf hN hD cfg ht fuel hf calls hc, outputs_spec_partial wf hN hD Cfg.none rfl fuel hf calls hc]
 
 /-- the four named configurations, spelled out -/
 theorem cache_transparent_four_partial {d : Doc V E} {filt : Nat → List Nat} {rank : Nat → Nat} (wf : WF d filt rank)
-    {N : Nat} (hN : ∀ r, rank r < N) (fuel : Nat) (hf : N ≤ fuel)
+    {N : Nat} (hN : ∀ r, rank r < N) (hD : N ≤ maxNestedGets) (fuel : Nat) (hf : N ≤ fuel)
     (calls : List (Prog V E)) (hc : ∀ p ∈ calls, FineCall filt p) :
     outputs d Cfg.both fuel calls = outputs d Cfg.none fuel calls ∧
     outputs d Cfg.objOnly fuel calls = outputs d Cfg.none fuel calls ∧
     outputs d Cfg.stmOnly fuel calls = outputs d Cfg.none fuel calls :=
-  ⟨cache_transparent_partial wf hN _ rfl fuel hf calls hc, cache_transparent_partial wf hN _ rfl fuel hf calls hc,
-   cache_transparent_partial wf hN _ rfl fuel hf calls hc⟩
+  ⟨cache_transparent_partial wf hN hD _ rfl fuel hf calls hc, cache_transparent_partial wf hN hD _ rfl fuel hf calls hc,
+   cache_transparent_partial wf hN hD _ rfl fuel hf calls hc⟩
 
 /-- **C12, second sentence.** The answer to a call never depends on which calls came before it: after
     any prefix `pre`, the call `q` answers what it answers as the first call on a fresh document. -/
 theorem answer_independent_of_prefix_partial {d : Doc V E} {filt : Nat → List Nat} {rank : Nat → Nat}
-    (wf : WF d filt rank) {N : Nat} (hN : ∀ r, rank r < N) (cfg : Cfg) (ht : cfg.trustErr = false)
+    (wf : WF d filt rank) {N : Nat} (hN : ∀ r, rank r < N) (hD : N ≤ maxNestedGets) (cfg : Cfg) (ht : cfg.trustErr = false)
     (fuel : Nat) (hf : N ≤ fuel) (pre : List (Prog V E)) (q : Prog V E)
     (hc : ∀ p ∈ pre, FineCall filt p) (hq : FineCall filt q) :
     outputs d cfg fuel (pre ++ [q]) = outputs d cfg fuel pre ++ outputs d cfg fuel [q] := by
-  rw [outputs_spec_partial wf hN cfg ht fuel hf (pre ++ [q]) (by
+  rw [outputs_spec_partial wf hN hD cfg ht fuel hf (pre ++ [q]) (by
         intro p hp; simp at hp; rcases hp with hp | rfl
         · exact hc p hp
         · exact hq),
-      outputs_spec_partial wf hN cfg ht fuel hf pre hc,
-      outputs_spec_partial wf hN cfg ht fuel hf [q] (by intro p hp; simp at hp; subst hp; exact hq)]
+      outputs_spec_partial wf hN hD cfg ht fuel hf pre hc,
+      outputs_spec_partial wf hN hD cfg ht fuel hf [q] (by intro p hp; simp at hp; subst hp; exact hq)]
   simp
 
 /-- The fuel of the model is never exhausted: every call returns a value or an error. -/
 theorem outputs_total_partial {d : Doc V E} {filt : Nat → List Nat} {rank : Nat → Nat} (wf : WF d filt rank)
-    {N : Nat} (hN : ∀ r, rank r < N) (cfg : Cfg) (ht : cfg.trustErr = false) (fuel : Nat) (hf : N ≤ fuel)
+    {N : Nat} (hN : ∀ r, rank r < N) (hD : N ≤ maxNestedGets) (cfg : Cfg) (ht : cfg.trustErr = false) (fuel : Nat) (hf : N ≤ fuel)
     (calls : List (Prog V E)) (hc : ∀ p ∈ calls, FineCall filt p) :
     ∀ x ∈ outputs d cfg fuel calls, x ≠ .oof := by
-  rw [outputs_spec_partial wf hN cfg ht fuel hf calls hc]
+  rw [outputs_spec_partial wf hN hD cfg ht fuel hf calls hc]
   intro x hx
   simp only [List.mem_map] at hx
   obtain ⟨p, hp, rfl⟩ := hx
@@ -215,10 +215,10 @@ theorem generated_doc_wf (d : CacheDoc.Desc) (h : CacheDoc.okRanks d = true) :
     `raw_image_data`, `image_data`, page look-ups): the answers are those of the uncached document. -/
 theorem generated_cache_transparent (d : CacheDoc.Desc) (h : CacheDoc.okRanks d = true) (cfg : Cfg)
     (ht : cfg.trustErr = false) (root : CacheDoc.R) (calls : List CacheDoc.CallK) (fuel : Nat)
-    (hf : d.objs.length + 2 ≤ fuel) :
+    (hf : d.objs.length + 2 ≤ fuel) (hsmall : d.objs.length + 2 ≤ maxNestedGets) :
     outputs (CacheDoc.toDoc d) cfg fuel (calls.map (·.prog d root))
       = outputs (CacheDoc.toDoc d) Cfg.none fuel (calls.map (·.prog d root)) := by
-  refine cache_transparent_partial (CacheDoc.wf_of_okRanks h) (CacheDoc.rk_lt d) cfg ht fuel hf _ ?_
+  refine cache_transparent_partial (CacheDoc.wf_of_okRanks h) (CacheDoc.rk_lt d) hsmall cfg ht fuel hf _ ?_
   intro p hp
   simp only [List.mem_map] at hp
   obtain ⟨c, _, rfl⟩ := hp
